@@ -60,6 +60,18 @@ Proof.
   now rewrite Hs.
 Qed.
 
+(** In particular below a frozen class, as long as the class body writes no [__setattr__]
+    of its own (which hides the inherited one from [_has_frozen_base_class]). *)
+Lemma hooks_rejected_under_frozen_base_l c rest :
+  base_frozen rest = true -> c_user_setattr c = None ->
+  (has_cls_on_setattr (c_on_setattr c) = true \/
+   existsb (fun a => negb (os_is_none (a_on_setattr a))) (c_attrs c) = true) ->
+  build_attrs c rest = None.
+Proof.
+  intros Bf Hu H. apply hooks_rejected_on_frozen_l; [|exact H].
+  unfold is_frozen, has_frozen_base_class. rewrite Hu, Bf. apply orb_true_r.
+Qed.
+
 (** [define] with explicit hooks below a frozen class: ValueError, whatever else. *)
 Lemma define_hooks_under_frozen_base_l c rest :
   c_api c = ApiDefine -> base_frozen rest = true -> has_cls_on_setattr (c_on_setattr c) = true ->
@@ -392,4 +404,26 @@ Lemma hook_resolution_refuted_l :
 Proof.
   exists (slotted_cls [plain_attr "x" OsNone]), (tl confused_chain).
   eexists. eexists. eexists. vm_compute. repeat split; reflexivity.
+Qed.
+
+(** The guard [c_user_setattr c = None] of [hooks_rejected_under_frozen_base_l] is needed:
+    attr.s(on_setattr=h) on a subclass of a frozen class whose body defines
+    [__setattr__] is accepted and mutable. *)
+Definition frozen_root : acls :=
+  {| c_api := ApiAttrs; c_attrs := [plain_attr "x" OsNone]; c_slots := false; c_frozen_arg := true;
+     c_on_setattr := COsNone; c_auto_detect := false; c_user_setattr := None;
+     c_mro_slots := []; c_has_dict := true |}.
+
+Definition hooked_body_setattr : acls :=
+  {| c_api := ApiAttrs; c_attrs := [plain_attr "x" OsNone]; c_slots := false; c_frozen_arg := false;
+     c_on_setattr := COsSingle (HUser "h"); c_auto_detect := false; c_user_setattr := Some "U";
+     c_mro_slots := []; c_has_dict := true |}.
+
+Lemma hooks_under_frozen_base_refuted_l :
+  exists c rest d,
+    build_chain [Attrs frozen_root] = Some rest /\ base_frozen rest = true /\
+    has_cls_on_setattr (c_on_setattr c) = true /\
+    build_attrs c rest = Some d /\ is_sa_hooked (lookup_setattr (d :: rest)) = true.
+Proof.
+  exists hooked_body_setattr. eexists. eexists. vm_compute. repeat split; reflexivity.
 Qed.
